@@ -233,6 +233,41 @@ def c15(prop, tier):
     return ck.finish()
 
 
+def snap_cfg(stype, entries):
+    return ('CoreSnap.%s.cfg' % stype, '''SPECIFICATION SSpec
+CONSTANTS
+  Replica = {"a", "b"}
+  Writer = {"a", "b"}
+  StoreType = "%s"
+  MaxEntries = %d
+  MaxRestarts = 0
+  Keys = {k1, k2}
+  Vals = {v1, v2}
+  BigVal = v2
+  NoVal = NoVal
+  Rank <- RankDef
+INVARIANTS SnapOK
+CHECK_DEADLOCK FALSE
+''' % (stype, entries))
+
+
+def c13(prop, tier):
+    ck = Check(prop, tier)
+    thorough = tier == 'thorough'
+    ck.rule = ('for every replica of every replayed Core behaviour (empty, chain, fork, multi-writer, replicated entries, and once with '
+               'a replication in progress) a snapshot is saved and loaded into a fresh store object on a copy of the durable state; '
+               'value v2 is concretised to payloads of 37 KB..300 KB (beyond the 16-bit record length), others from 0 to 34 KB; '
+               'outcome must be error, or ok with identical log/heads/view; non-trivial = >=2 writers and a merge')
+    r = vlib.tlc_check('MCCoreSnap.tla', snap_cfg('kv', 3), 'C13-snap', timeout=900)
+    ck.require_model_ok(r, 'CoreSnap: save/load outcome table on every log of <= 3 entries')
+    sz = dict(n_sim=90 if thorough else 15, depth=14, sim_entries=6, n_random=0, random_len=0)
+    for stype in (['kv', 'log', 'doc'] if thorough else ['kv', 'log']):
+        res = run_core(ck, prop, stype, tier, extra={'snapshots': True, 'big_val': 'v2'}, **sz)
+        for k in ('snapshots', 'snapshot_save_errors'):
+            ck.extra[k] = ck.extra.get(k, 0) + res.get('stats', {}).get(k, 0)
+    return ck.finish()
+
+
 def replay(prop, path):
     p = json.load(open(path))
     if p.get('command') == 'core':
